@@ -137,7 +137,7 @@ NewCall(kind, pay, md, to) ==
   [kind |-> kind, id |-> "", pay |-> pay, md |-> md, dl |-> IF to > 0 THEN T + to ELSE -1,
    opened |-> "", sent |-> <<>>, late |-> <<>>, nW |-> 0, nOk |-> 0,
    closeCalled |-> FALSE, closeW |-> FALSE, rstW |-> FALSE, cancelled |-> FALSE,
-   recvd |-> 0, term |-> "", tcode |-> -1, uret |-> FALSE, sendFailed |-> FALSE, rstLost |-> FALSE]
+   recvd |-> 0, term |-> "", tcode |-> -1, uret |-> FALSE, sendFailed |-> FALSE, sendRefused |-> FALSE, rstLost |-> FALSE]
 
 UCall(c, pay, md, to) ==
   /\ c \notin DOMAIN calls
@@ -554,7 +554,9 @@ URet(c, res, code, msg, ndet, pay) ==
   /\ CUpd(c, [calls[c] EXCEPT !.uret = TRUE])
 
 \* the stream was (or is being) torn down by its own refused Send: SendMsg may not have returned yet
-SendTornDown(c) == calls[c].sendFailed \/ ("cwfail" \in flt /\ calls[c].nOk < Len(calls[c].sent))
+\* (sendRefused: for a reason of the transport or the codec - a Send that failed because the caller's context was
+\* done is no excuse for reporting anything but the context's status afterwards, C07)
+SendTornDown(c) == calls[c].sendRefused \/ ("cwfail" \in flt /\ calls[c].nOk < Len(calls[c].sent))
 
 SOpenRet(c, res) ==
   /\ c \in DOMAIN calls /\ calls[c].kind # "unary" /\ calls[c].opened = ""
@@ -584,6 +586,7 @@ SSendRet(c, res, cls) ==
                          /\ ~calls[c].sendFailed /\ "cwrite1" \notin flt) => cls = "ctx")
             \* the message did not go out: drop it from the expected wire sequence
             /\ CUpd(c, [calls[c] EXCEPT !.sendFailed = TRUE,
+                                        !.sendRefused = @ \/ (flt \cap {"cwfail", "cwrite1", "cwrite"} # {}),
                                         !.sent = IF calls[c].nW > calls[c].nOk THEN @ ELSE SubSeq(@, 1, calls[c].nOk) \o SubSeq(@, calls[c].nOk + 2, Len(@)),
                                         !.late = IF calls[c].nW > calls[c].nOk THEN @ ELSE SubSeq(@, 1, calls[c].nOk) \o SubSeq(@, calls[c].nOk + 2, Len(@)),
                                         !.nOk = IF calls[c].nW > calls[c].nOk THEN @ + 1 ELSE @])
@@ -592,7 +595,7 @@ SSendRet(c, res, cls) ==
 \* down (its peer is told with the stream's one reset, like after any other failed Send)
 SSendBad(c) ==
   /\ c \in DOMAIN calls /\ calls[c].opened = "ok"
-  /\ CUpd(c, [calls[c] EXCEPT !.sendFailed = TRUE])
+  /\ CUpd(c, [calls[c] EXCEPT !.sendFailed = TRUE, !.sendRefused = TRUE])
 SSendBadRet(c, res) ==
   /\ c \in DOMAIN calls /\ calls[c].opened = "ok" /\ calls[c].sendFailed
   /\ G("fault", res = "err")                    \* a message that cannot be encoded is never reported as sent
